@@ -31,6 +31,18 @@ func main() {
 		cmdList(os.Args[2:])
 	case "dump":
 		cmdDump(os.Args[2:])
+	case "uncontracted":
+		// functions of the module that no obligation is generated from (for the status table)
+		p := setup("/repo")
+		for _, k := range sortedKeys(p.FnByKey) {
+			fn := p.FnByKey[k]
+			if len(fn.Blocks) == 0 || strings.HasSuffix(p.SSA.Fset.Position(fn.Pos()).Filename, "_test.go") {
+				continue
+			}
+			if p.contractFor(fn) == nil && !p.refined(fn) {
+				fmt.Println(k)
+			}
+		}
 	default:
 		fmt.Fprintln(os.Stderr, "unknown command", os.Args[1])
 		os.Exit(2)
